@@ -363,9 +363,30 @@ class Inputs:
             self.full = {}
             self.blocks = {(0, 0, *self.zero_o): sympy.Matrix([[h0 - delta]]),
                            (1, 1, *self.zero_o): sympy.Matrix([[h0 + delta]])}
-            for o in map(tuple, w["terms"]):
+            if w.get("sq_two_level"):
+                # two states per block; the terms of different parameters couple different pairs of states
+                e1, e2 = sympy.Rational(1, 7), sympy.Rational(1, 5)
+                self.blocks = {(0, 0, *self.zero_o): sympy.Matrix([[h0 - delta - e1, 0], [0, h0 - delta + e1]]),
+                               (1, 1, *self.zero_o): sympy.Matrix([[h0 + delta - e2, 0], [0, h0 + delta + e2]])}
+                for n_, o in enumerate(map(tuple, w["terms"])):
+                    g = Rq(1, 5)
+                    pattern = [[a, 0], [0, a]] if n_ % 2 == 0 else [[0, a], [a, 0]]
+                    if sum(o) > 1:
+                        pattern = [[a, a], [0, 0]]
+                    M = g * sympy.Matrix(pattern)
+                    self.blocks[(0, 1, *o)] = M
+                    self.blocks[(1, 0, *o)] = Dagger(M)
+            for o in map(tuple, w["terms"] if not w.get("sq_two_level") else []):
                 kind = int(rg.integers(0, 6 if two else 4))
+                if w.get("sq_same_drive"):
+                    kind = 6
                 g, k = Rq(1, 5), Rq(1, 5)
+                if kind == 6:
+                    # the same drive on both blocks (identical matrices) next to the coupling
+                    self.blocks[(0, 0, *o)] = sympy.Matrix([[k * (a + Dagger(a))]])
+                    self.blocks[(1, 1, *o)] = sympy.Matrix([[k * (a + Dagger(a))]])
+                    self.blocks[(0, 1, *o)] = sympy.Matrix([[g * a]])
+                    self.blocks[(1, 0, *o)] = sympy.Matrix([[g * Dagger(a)]])
                 if kind in (0, 1, 3):
                     self.blocks[(0, 1, *o)] = sympy.Matrix([[g * a]])
                     self.blocks[(1, 0, *o)] = sympy.Matrix([[g * Dagger(a)]])
@@ -383,11 +404,22 @@ class Inputs:
                     self.blocks[(1, 0, *o)] = sympy.Matrix([[g * Dagger(a)]])
             # operator-valued elimination masks (dict form of fully_diagonalize)
             self.sq_masks = {"a": sympy.Matrix([[a + Dagger(a)]]), "ab": sympy.Matrix([[a + Dagger(a) + b + Dagger(b)]]),
+                             "a2only": sympy.Matrix([[a**2 + Dagger(a)**2]]),
                              "a2": sympy.Matrix([[a + Dagger(a) + a**2 + Dagger(a)**2]])}
             self.vecs = None
             self.masks = {}
             self.tracer = False
             self.sym = True
+            if w["fmt"] != "blocked":
+                # the same problem handed over as full operator-valued matrices plus subspace_indices
+                sz = sizes
+                orders_present = sorted({k[2:] for k in self.blocks})
+                for o in orders_present:
+                    M = sympy.zeros(N, N)
+                    for (i, j, *oo), B in self.blocks.items():
+                        if tuple(oo) == o:
+                            M[int(self.offs[i]):int(self.offs[i]) + sz[i], int(self.offs[j]):int(self.offs[j]) + sz[j]] = B
+                    self.full[o] = M
             return
         self.tracer = w["domain"] == "tracer"
         if self.tracer:
@@ -881,7 +913,8 @@ class Sim:
             kw["atol"] = self.w["atol"]
         fd = spec.get("fd")
         if isinstance(fd, dict) and "sqmask" in fd:
-            kw["fully_diagonalize"] = {b: self.inp.sq_masks[fd["sqmask"]].copy() for b in fd["blocks"]}
+            per_block = fd.get("sqmask_by_block") or {}
+            kw["fully_diagonalize"] = {b: self.inp.sq_masks[per_block.get(str(b), fd["sqmask"])].copy() for b in fd["blocks"]}
         elif isinstance(fd, dict):
             # the caller keeps its mask dictionary and passes the same object again when it re-defines the computation
             if c not in self._fd_dicts:
@@ -1797,6 +1830,8 @@ class GraphProp:
                 sizes = [1] * nb if r.random() < 0.6 else [r.choice([1, 2]) for _ in range(nb)]
         if domain in ("tracer", "sq"):
             fmt = "blocked"
+        if domain == "sq" and r.random() < 0.4:
+            fmt = r.choice(["dict", "scalar_idx"])
         if domain == "wrapped":
             fmt = r.choice(["blocked", "blocked", "scalar_vecs"])
         if domain == "sparse" and fmt == "scalar_vecs":
@@ -1912,10 +1947,26 @@ class GraphProp:
             w["deg"] = False
             w["sq_modes"] = r.choice([1, 2])
             w["sq_stat"] = r.choice(["boson", "boson", "fermion"])
+            x_sq = r.random()
+            if x_sq < 0.3:
+                # two states per block, every parameter couples another pair of states
+                w["sq_two_level"] = True
+                w["sizes"] = [2, 2]
+                if w["npert"] == 2:
+                    w["terms"] = [[0, 1], [1, 0]] + ([[1, 1]] if r.random() < 0.3 else [])
+                w["sq_modes"] = 1
+                w["sq_stat"] = "boson"
+            elif x_sq < 0.55 and w["sq_stat"] == "boson":
+                w["sq_same_drive"] = True
             for spec in comps:
+                if w.get("sq_two_level"):
+                    spec["fd"] = None
                 if isinstance(spec["fd"], dict):
                     kinds = ["a"] + (["a2"] if w["sq_stat"] == "boson" else []) + (["ab"] if w["sq_modes"] == 2 else [])
                     spec["fd"] = {"blocks": spec["fd"]["blocks"], "sqmask": r.choice(kinds)} if spec["herm"] else None
+                if w.get("sq_same_drive") and spec["herm"] and spec.get("chain") is None:
+                    # selective diagonalisation with a different operator mask for each block
+                    spec["fd"] = {"blocks": [0, 1], "sqmask": "a", "sqmask_by_block": {"1": "a2only"}}
                 spec["solver"] = "default"
                 if spec.get("chain") is not None:
                     spec["fd"] = None
@@ -2033,8 +2084,9 @@ class GraphProp:
             for _ in range(r.choice([1, 2, 3])):
                 n = r.choice(orders)
                 ops.insert(r.randint(0, len(ops)), ["peek", r.randrange(nb), r.randrange(nb), list(n)])
-        if cone is None and r.random() < profile.get("p_aux_shared", 0.1) and world["fmt"] in ("scalar_idx", "scalar_vecs") and nb >= 2:
-            ops.insert(r.randint(0, len(ops)), ["aux_shared", r.randrange(8)])
+        if cone is None and r.random() < profile.get("p_aux_shared", 0.2) and world["fmt"] in ("scalar_idx", "scalar_vecs") and nb >= 2:
+            # often before the world's own computations are defined
+            ops.insert(0 if r.random() < 0.5 else r.randint(0, len(ops)), ["aux_shared", r.randrange(8)])
         if r.random() < profile.get("p_aux", 0.12) and world["domain"] in ("dense", "sparse", "sym"):
             # the process also runs an unrelated computation with the same number of blocks in between
             ops.insert(r.randint(0, len(ops)), ["aux", r.choice(["implicit", "implicit", "explicit", "explicit_fd"]), r.randrange(1 << 30)])
